@@ -63,7 +63,7 @@ func nextChainID() uint64 {
 }
 
 // pipeABI is the ABI sub-domain used by the pipeline checks (C09 owns the rest).
-var pipeABI = gen.ABIOpts{MaxDepth: 2, MaxLeaves: 40, DynLen: 3, MaxInputs: 4, Ks: []int{1, 2, 3, 5, 9}, NoBytesArray: true, MaxIndexed: 3}
+var pipeABI = gen.ABIOpts{MaxDepth: 2, MaxLeaves: 40, DynLen: 3, MaxInputs: 4, Ks: []int{1, 2, 3, 5, 9, 10, 12}, MaxIndexed: 3}
 
 type faultPlan struct {
 	mu       sync.Mutex
